@@ -62,6 +62,16 @@ pub fn exec(func: &str, a: &mut Args) -> String {
         "cuboid_posed_toi" => { let he = d3::v(a); let iso = d3::iso(a); let (ray, m, s) = ray_tail(a); otoi(Cuboid::new(he).cast_ray(&iso, &ray, m, s)) }
         "halfspace_normal" => { let n = d3::v(a); let (ray, m, s) = ray_tail(a); ointer(halfspace(n).cast_local_ray_and_get_normal(&ray, m, s)) }
         "halfspace_posed" => { let n = d3::v(a); let iso = d3::iso(a); let (ray, m, s) = ray_tail(a); ointer(halfspace(n).cast_ray_and_get_normal(&iso, &ray, m, s)) }
+        // boolean forms of the trait (default `intersects_local_ray` / `intersects_ray`, BoundingSphere's override); the
+        // `solid` token of the common ray tail is parsed and ignored
+        "ball_intersects" => { let r = a.f(); let (ray, m, _s) = ray_tail(a); b(Ball::new(r).intersects_local_ray(&ray, m)).to_string() }
+        "ball_intersects_posed" => { let r = a.f(); let iso = d3::iso(a); let (ray, m, _s) = ray_tail(a); b(Ball::new(r).intersects_ray(&iso, &ray, m)).to_string() }
+        "bsphere_intersects" => { let c = d3::p(a); let r = a.f(); let (ray, m, _s) = ray_tail(a); b(BoundingSphere::new(c, r).intersects_local_ray(&ray, m)).to_string() }
+        "aabb_intersects" => { let mins = d3::p(a); let maxs = d3::p(a); let (ray, m, _s) = ray_tail(a); b(Aabb::new(mins, maxs).intersects_local_ray(&ray, m)).to_string() }
+        "cuboid_intersects" => { let he = d3::v(a); let (ray, m, _s) = ray_tail(a); b(Cuboid::new(he).intersects_local_ray(&ray, m)).to_string() }
+        "cuboid_intersects_posed" => { let he = d3::v(a); let iso = d3::iso(a); let (ray, m, _s) = ray_tail(a); b(Cuboid::new(he).intersects_ray(&iso, &ray, m)).to_string() }
+        "halfspace_intersects" => { let n = d3::v(a); let (ray, m, _s) = ray_tail(a); b(halfspace(n).intersects_local_ray(&ray, m)).to_string() }
+        "halfspace_intersects_posed" => { let n = d3::v(a); let iso = d3::iso(a); let (ray, m, _s) = ray_tail(a); b(halfspace(n).intersects_ray(&iso, &ray, m)).to_string() }
         "triangle_normal" => { let p = d3::p(a); let q = d3::p(a); let r = d3::p(a); let (ray, m, s) = ray_tail(a);
             ointer(Triangle::new(p, q, r).cast_local_ray_and_get_normal(&ray, m, s)) }
         "triangle_inter" => { let p = d3::p(a); let q = d3::p(a); let r = d3::p(a); let o = d3::p(a); let d = d3::v(a);
@@ -95,6 +105,10 @@ pub fn exec(func: &str, a: &mut Args) -> String {
         "ball2_normal" => { let r = a.f(); let (ray, m, s) = ray_tail2(a); ointer2(crate::p2::shape::Ball::new(r).cast_local_ray_and_get_normal(&ray, m, s)) }
         "cuboid2_toi" => { let he = d2::v(a); let (ray, m, s) = ray_tail2(a); otoi(crate::p2::shape::Cuboid::new(he).cast_local_ray(&ray, m, s)) }
         "cuboid2_normal" => { let he = d2::v(a); let (ray, m, s) = ray_tail2(a); ointer2(crate::p2::shape::Cuboid::new(he).cast_local_ray_and_get_normal(&ray, m, s)) }
+        "ball2_posed" => { let r = a.f(); let iso = d2::iso(a); let (ray, m, s) = ray_tail2(a); ointer2(crate::p2::shape::Ball::new(r).cast_ray_and_get_normal(&iso, &ray, m, s)) }
+        "ball2_posed_toi" => { let r = a.f(); let iso = d2::iso(a); let (ray, m, s) = ray_tail2(a); otoi(crate::p2::shape::Ball::new(r).cast_ray(&iso, &ray, m, s)) }
+        "cuboid2_posed" => { let he = d2::v(a); let iso = d2::iso(a); let (ray, m, s) = ray_tail2(a); ointer2(crate::p2::shape::Cuboid::new(he).cast_ray_and_get_normal(&iso, &ray, m, s)) }
+        "cuboid2_posed_toi" => { let he = d2::v(a); let iso = d2::iso(a); let (ray, m, s) = ray_tail2(a); otoi(crate::p2::shape::Cuboid::new(he).cast_ray(&iso, &ray, m, s)) }
         "tri2_normal" => { let p = d2::p(a); let q = d2::p(a); let t = d2::p(a); let (ray, m, s) = ray_tail2(a);
             ointer2(crate::p2::shape::Triangle::new(p, q, t).cast_local_ray_and_get_normal(&ray, m, s)) }
         "tri2_posed" => { let p = d2::p(a); let q = d2::p(a); let t = d2::p(a); let iso = d2::iso(a); let (ray, m, s) = ray_tail2(a);
@@ -148,7 +162,7 @@ fn polyline2(a: &mut Args) -> crate::p2::shape::Polyline {
 // ------------------------------------------------------------------ generators
 
 /// functions whose Lean handler exists (widened as the model grows)
-const ENABLED: &[&str] = &["convpoly_normal", "roundcuboid_normal", "convpoly2_normal", "ball2_toi", "ball2_normal", "cuboid2_toi", "cuboid2_normal", "tri2_normal", "tri2_posed", "rc_hf2", "simd_aabb_cast", "rc_hf3", "rc_hf3_posed", "rc_trimesh", "rc_trimesh_toi", "rc_compound", "rc_compound_toi", "rc_polyline2", "ball_toi", "ball_normal", "ball_posed", "ray_toi_with_ball", "bsphere_normal", "aabb_toi", "aabb_normal", "clip_aabb_line", "cuboid_toi", "cuboid_normal", "cuboid_posed", "cuboid_posed_toi", "halfspace_normal", "halfspace_posed", "triangle_normal", "triangle_inter", "segment2_normal", "segment2_posed", "capsule_normal", "cylinder_normal", "cone_normal"];
+const ENABLED: &[&str] = &["ball2_posed", "ball2_posed_toi", "cuboid2_posed", "cuboid2_posed_toi", "ball_intersects", "ball_intersects_posed", "bsphere_intersects", "aabb_intersects", "cuboid_intersects", "cuboid_intersects_posed", "halfspace_intersects", "halfspace_intersects_posed", "convpoly_normal", "roundcuboid_normal", "convpoly2_normal", "ball2_toi", "ball2_normal", "cuboid2_toi", "cuboid2_normal", "tri2_normal", "tri2_posed", "rc_hf2", "simd_aabb_cast", "rc_hf3", "rc_hf3_posed", "rc_trimesh", "rc_trimesh_toi", "rc_compound", "rc_compound_toi", "rc_polyline2", "ball_toi", "ball_normal", "ball_posed", "ray_toi_with_ball", "bsphere_normal", "aabb_toi", "aabb_normal", "clip_aabb_line", "cuboid_toi", "cuboid_normal", "cuboid_posed", "cuboid_posed_toi", "halfspace_normal", "halfspace_posed", "triangle_normal", "triangle_inter", "segment2_normal", "segment2_posed", "capsule_normal", "cylinder_normal", "cone_normal"];
 
 const DIR_SCALES: [f64; 9] = [0.001, 0.015625, 0.125, 0.5, 1.0, 2.0, 8.0, 64.0, 1000.0];
 
@@ -253,6 +267,9 @@ pub fn gen(r: &mut Rng, thorough: bool) -> Vec<(String, String)> {
             let c = d3::gen_p(r, lat, 20.0);
             v.push(("ray_toi_with_ball".into(), format!("{} {} {}", d3::hp(&c), hx(rad), tail(&(o + c.coords), &d, m, solid))));
             v.push(("bsphere_normal".into(), format!("{} {} {}", d3::hp(&c), hx(rad), tail(&(o + c.coords), &d, m, solid))));
+            v.push(("ball_intersects".into(), format!("{} {}", hx(rad), tl)));
+            v.push(("ball_intersects_posed".into(), format!("{} {} {}", hx(rad), d3::hiso(&iso), tail(&(iso * o), &(iso * d), m, solid))));
+            v.push(("bsphere_intersects".into(), format!("{} {} {}", d3::hp(&c), hx(rad), tail(&(o + c.coords), &d, m, solid))));
         }
         // ---------------- aabb / cuboid
         {
@@ -284,6 +301,9 @@ pub fn gen(r: &mut Rng, thorough: bool) -> Vec<(String, String)> {
             let oc = o + c;
             v.push(("aabb_toi".into(), format!("{} {}", bx, tail(&oc, &d, m, solid))));
             v.push(("aabb_normal".into(), format!("{} {}", bx, tail(&oc, &d, m, solid))));
+            v.push(("cuboid_intersects".into(), format!("{} {}", d3::hv(&he), tl)));
+            v.push(("cuboid_intersects_posed".into(), format!("{} {} {}", d3::hv(&he), d3::hiso(&iso), ptl)));
+            v.push(("aabb_intersects".into(), format!("{} {}", bx, tail(&oc, &d, m, solid))));
             v.push(("clip_aabb_line".into(), format!("{} {} {}", bx, d3::hp(&oc), d3::hv(&d))));
             // the line form also clips boxes lying entirely behind the origin (reversed direction) and no longer panics on a
             // zero direction (side code 0 leaves the normal at zero): both exercised on every run
@@ -325,7 +345,9 @@ pub fn gen(r: &mut Rng, thorough: bool) -> Vec<(String, String)> {
             let m = if forced == 1 { f64::INFINITY } else { gen_max(r, lat, t0, d.norm()) };
             v.push(("halfspace_normal".into(), format!("{} {}", d3::hv(&nrm), tail(&o, &d, m, solid))));
             let iso = if forced > 0 { d3::gen_iso(r, true, 50.0) } else { d3::gen_iso(r, lat, 50.0) };
+            v.push(("halfspace_intersects".into(), format!("{} {}", d3::hv(&nrm), tail(&o, &d, m, solid))));
             v.push(("halfspace_posed".into(), format!("{} {} {}", d3::hv(&nrm), d3::hiso(&iso), tail(&(iso * o), &(iso * d), m, solid))));
+            v.push(("halfspace_intersects_posed".into(), format!("{} {} {}", d3::hv(&nrm), d3::hiso(&iso), tail(&(iso * o), &(iso * d), m, solid))));
         }
         // ---------------- triangle (3-D)
         {
@@ -832,6 +854,8 @@ fn gen_2d(r: &mut Rng, thorough: bool, v: &mut Vec<(String, String)>) {
     for it in 0..n {
         let lat = it % 2 == 0;
         let solid = r.bool();
+        let ball_case: (f64, P2, V2, f64);
+        let cub_case: (V2, P2, V2, f64);
         // ---------------- ball (2-D)
         {
             let rad = r.pos_extent(lat);
@@ -847,6 +871,7 @@ fn gen_2d(r: &mut Rng, thorough: bool, v: &mut Vec<(String, String)>) {
             let m = gen_max(r, lat, t0, d.norm());
             v.push(("ball2_toi".into(), format!("{} {}", hx(rad), tail2(&o, &d, m, solid))));
             v.push(("ball2_normal".into(), format!("{} {}", hx(rad), tail2(&o, &d, m, solid))));
+            ball_case = (rad, o, d, m);
         }
         // ---------------- cuboid (2-D)
         {
@@ -866,6 +891,7 @@ fn gen_2d(r: &mut Rng, thorough: bool, v: &mut Vec<(String, String)>) {
             let m = gen_max(r, lat, t0, d.norm());
             v.push(("cuboid2_toi".into(), format!("{} {}", d2::hv(&he), tail2(&o, &d, m, solid))));
             v.push(("cuboid2_normal".into(), format!("{} {}", d2::hv(&he), tail2(&o, &d, m, solid))));
+            cub_case = (he, o, d, m);
         }
         // ---------------- triangle (2-D): both orientations, rays through vertices / along edges / from inside
         {
@@ -898,6 +924,13 @@ fn gen_2d(r: &mut Rng, thorough: bool, v: &mut Vec<(String, String)>) {
             v.push(("tri2_normal".into(), format!("{} {}", sh, tail2(&o, &d, m, solid))));
             let iso = d2::gen_iso(r, lat, 50.0);
             v.push(("tri2_posed".into(), format!("{} {} {}", sh, d2::hiso(&iso), tail2(&(iso * o), &(iso * d), m, solid))));
+            // posed 2-D ball / cuboid: the cases of this iteration's ball and cuboid blocks under the same isometry
+            { let (rad, o, d, m) = ball_case; let t = tail2(&(iso * o), &(iso * d), m, solid);
+              v.push(("ball2_posed".into(), format!("{} {} {}", hx(rad), d2::hiso(&iso), t)));
+              v.push(("ball2_posed_toi".into(), format!("{} {} {}", hx(rad), d2::hiso(&iso), t))); }
+            { let (he, o, d, m) = cub_case; let t = tail2(&(iso * o), &(iso * d), m, solid);
+              v.push(("cuboid2_posed".into(), format!("{} {} {}", d2::hv(&he), d2::hiso(&iso), t)));
+              v.push(("cuboid2_posed_toi".into(), format!("{} {} {}", d2::hv(&he), d2::hiso(&iso), t))); }
         }
     }
     if std::env::var("VERIF_FAMILIES").is_ok() { eprintln!("C04 gen_2d ray kinds (ball2): {:?}", fam); }
